@@ -80,6 +80,11 @@ def timingLiteral (n : CNode) : BM Ast.Expr :=
 def filePath (n : CNode) : BM Ast.FilePath :=
   (ofPRes (FilePath.to_string n)).map fun s => ⟨span n, s.map str⟩
 
+/-- `IndexKind::cast`: SET_EXPRESSION | EXPRESSION_LIST (inline in `m_ast.rs: index_operator`) -/
+def indexKindOf (fs : CNode → BM Ast.SetExpression) (fe : CNode → BM Ast.ExpressionList) (k : CNode) :
+    BM Ast.IndexKind :=
+  if k.kind == .SET_EXPRESSION then (fs k).map .setExpression else (fe k).map .expressionList
+
 mutual
 
 def designator : Nat → CNode → BM Ast.Designator
@@ -115,16 +120,11 @@ def rangeExpr : Nat → CNode → BM Ast.RangeExpr
       | .error e => .error e
       | .ok b => (optM (expr fuel) (RangeExpr.start_step_stop n).2.2).map fun c => .mk (span n) a b c
 
-/-- `IndexKind::cast`: SET_EXPRESSION | EXPRESSION_LIST -/
-def indexKind : Nat → CNode → BM Ast.IndexKind
-  | 0, _ => .error .fuel
-  | fuel + 1, k =>
-    if k.kind == .SET_EXPRESSION then (setExpression fuel k).map .setExpression
-    else (expressionList fuel k).map .expressionList
-
 def indexOperator : Nat → CNode → BM Ast.IndexOperator
   | 0, _ => .error .fuel
-  | fuel + 1, n => (optM (indexKind fuel) (IndexOperator.index_kind n)).map fun k => .mk (span n) k
+  | fuel + 1, n =>
+    (optM (indexKindOf (setExpression fuel) (expressionList fuel)) (IndexOperator.index_kind n)).map fun k =>
+      .mk (span n) k
 
 def indexedIdentifier : Nat → CNode → BM Ast.IndexedIdentifier
   | 0, _ => .error .fuel
@@ -233,17 +233,22 @@ def expr : Nat → CNode → BM Ast.Expr
 end
 
 /-- `ParamType::cast`: SCALAR_TYPE | ARRAY_REF_TYPE -/
-def paramType (fuel : Nat) (n : CNode) : BM Ast.ParamType :=
-  if n.kind == .SCALAR_TYPE then (scalarType fuel n).map .scalarType else .ok (.arrayRefType (span n))
+def paramType : Nat → CNode → BM Ast.ParamType
+  | 0, _ => .error .fuel
+  | fuel + 1, n =>
+    if n.kind == .SCALAR_TYPE then (scalarType fuel n).map .scalarType else .ok (.arrayRefType (span n))
 
-def typedParam (fuel : Nat) (n : CNode) : BM Ast.TypedParam :=
-  match optM (paramType fuel) (TypedParam.param_type n) with
-  | .error e => .error e
-  | .ok pt => (optM name (TypedParam.name n)).map fun nm =>
-      ⟨span n, pt, (TypedParam.old_typed_param n).isSome, nm⟩
+def typedParam : Nat → CNode → BM Ast.TypedParam
+  | 0, _ => .error .fuel
+  | fuel + 1, n =>
+    match optM (paramType fuel) (TypedParam.param_type n) with
+    | .error e => .error e
+    | .ok pt => (optM name (TypedParam.name n)).map fun nm =>
+        ⟨span n, pt, (TypedParam.old_typed_param n).isSome, nm⟩
 
-def typedParamList (fuel : Nat) (n : CNode) : BM Ast.TypedParamList :=
-  (listM (typedParam fuel) (TypedParamList.typed_params n)).map fun ps => ⟨span n, ps⟩
+def typedParamList : Nat → CNode → BM Ast.TypedParamList
+  | 0, _ => .error .fuel
+  | fuel + 1, n => (listM (typedParam fuel) (TypedParamList.typed_params n)).map fun ps => ⟨span n, ps⟩
 
 def returnSignature (fuel : Nat) (r : CNode) : BM Ast.ReturnSignature :=
   (optM (scalarType fuel) (ReturnSignature.scalar_type r)).map fun s => ⟨span r, s⟩
@@ -251,13 +256,27 @@ def returnSignature (fuel : Nat) (r : CNode) : BM Ast.ReturnSignature :=
 def qubitType (fuel : Nat) (q : CNode) : BM Ast.QubitType :=
   (optM (designator fuel) (QubitType.designator q)).map fun d => ⟨span q, d⟩
 
-def forIterable (fuel : Nat) (it : CNode) : BM Ast.ForIterable :=
-  match optM (setExpression fuel) (ForIterable.set_expression it) with
-  | .error e => .error e
-  | .ok s =>
-    match optM (rangeExpr fuel) (ForIterable.range_expr it) with
+def forIterable : Nat → CNode → BM Ast.ForIterable
+  | 0, _ => .error .fuel
+  | fuel + 1, it =>
+    match optM (setExpression fuel) (ForIterable.set_expression it) with
     | .error e => .error e
-    | .ok r => (optM (expr fuel) (ForIterable.for_iterable_expr it)).map fun e => ⟨span it, s, r, e⟩
+    | .ok s =>
+      match optM (rangeExpr fuel) (ForIterable.range_expr it) with
+      | .error e => .error e
+      | .ok r => (optM (expr fuel) (ForIterable.for_iterable_expr it)).map fun e => ⟨span it, s, r, e⟩
+
+/-- `m_ast.rs: block_or_stmt` on the result of a panicking accessor (`Dump.blockOrStmt`: also
+fuel-checked), given the function for the non-panicking case -/
+def accBosOf (fuel : Nat) (f : BlockOrStmt → BM Ast.BlockOrStmt) :
+    PRes BlockOrStmt → BM (Ast.Acc Ast.BlockOrStmt)
+  | .panic => if fuel = 0 then .error .fuel else .ok .panicked
+  | .ok v => (f v).map .ok
+
+/-- `opt(n.false_body_block_or_stmt(), |x| block_or_stmt(Some(x)))` -/
+def optBosOf (f : BlockOrStmt → BM Ast.BlockOrStmt) : Option BlockOrStmt → BM (Option Ast.BlockOrStmt)
+  | none => .ok none
+  | some v => (f v).map some
 
 mutual
 
@@ -269,16 +288,6 @@ def blockOrStmt : Nat → BlockOrStmt → BM Ast.BlockOrStmt
   | 0, _ => .error .fuel
   | fuel + 1, .blockExpr bl => (blockExpr fuel bl).map .blockExpr
   | fuel + 1, .stmt s => (stmt fuel s).map .stmt
-
-def accBos : Nat → PRes BlockOrStmt → BM (Ast.Acc Ast.BlockOrStmt)
-  | 0, _ => .error .fuel
-  | _ + 1, .panic => .ok .panicked
-  | fuel + 1, .ok v => (blockOrStmt fuel v).map .ok
-
-def optBos : Nat → Option BlockOrStmt → BM (Option Ast.BlockOrStmt)
-  | 0, _ => .error .fuel
-  | _ + 1, none => .ok none
-  | fuel + 1, some v => (blockOrStmt fuel v).map some
 
 def caseExpr : Nat → CNode → BM Ast.CaseExpr
   | 0, _ => .error .fuel
@@ -296,13 +305,15 @@ def stmt : Nat → CNode → BM Ast.Stmt
       match optM (expr fuel) (IfStmt.condition n) with
       | .error e => .error e
       | .ok c =>
-        match accBos fuel (IfStmt.true_body_block_or_stmt n) with
+        match accBosOf fuel (blockOrStmt fuel) (IfStmt.true_body_block_or_stmt n) with
         | .error e => .error e
-        | .ok t => (optBos fuel (IfStmt.false_body_block_or_stmt n)).map fun f => .ifStmt (span n) c t f
+        | .ok t =>
+          (optBosOf (blockOrStmt fuel) (IfStmt.false_body_block_or_stmt n)).map fun f => .ifStmt (span n) c t f
     | .WHILE_STMT =>
       match optM (expr fuel) (WhileStmt.condition n) with
       | .error e => .error e
-      | .ok c => (accBos fuel (WhileStmt.block_or_stmt n)).map fun t => .whileStmt (span n) c t
+      | .ok c =>
+        (accBosOf fuel (blockOrStmt fuel) (WhileStmt.block_or_stmt n)).map fun t => .whileStmt (span n) c t
     | .FOR_STMT =>
       match optM name (ForStmt.loop_var n) with
       | .error e => .error e
@@ -312,7 +323,9 @@ def stmt : Nat → CNode → BM Ast.Stmt
         | .ok st =>
           match optM (forIterable fuel) (ForStmt.for_iterable n) with
           | .error e => .error e
-          | .ok it => (accBos fuel (ForStmt.block_or_stmt n)).map fun body => .forStmt (span n) v st it body
+          | .ok it =>
+            (accBosOf fuel (blockOrStmt fuel) (ForStmt.block_or_stmt n)).map fun body =>
+              .forStmt (span n) v st it body
     | .SWITCH_CASE_STMT =>
       match optM (expr fuel) (SwitchCaseStmt.control n) with
       | .error e => .error e
